@@ -681,3 +681,48 @@ def inlined_view(prog, fn, callees):
         b += 1
     return Fn(fn.name, d, fn.crate) if changed else fn
 
+
+def opcode_dispatch(prog, ex):
+    """How `execute` gets from an instruction word to its handler: {"form": "table"|"match", "handlers": [16 names],
+    "index": expression dispatched on, "args": [[arg strings] per call]}; None if neither form is found.
+    table form: a const array of 16 fn pointers indexed by an expression; match form: a switch on an expression whose arm for
+    value i (or the default arm) calls one local handler."""
+    from .facts import callee_of as _co, expr_str as _es
+    tab = None
+    for n, f in prog.fns.items():
+        if f.bkind == "const" and n.startswith(ex.name.rsplit("::", 1)[0] + "::"):
+            fns = [s["r"]["a"].get("resolved") or s["r"]["a"].get("fn") for blk in f.blocks for s in blk["stmts"]
+                   if s["k"] == "assign" and s["r"]["k"] == "cast" and "ReifyFnPointer" in s["r"].get("ck", "")]
+            if len(fns) == 16:
+                tab = fns
+    ind = [t for b in ex.live_blocks() for t in [ex.term(b)] if t["k"] == "call" and _co(t) is None]
+    if tab is not None and len(ind) == 1:
+        idx = None
+        for b in sorted(ex.live_blocks()):
+            t = ex.term(b)
+            if t["k"] == "assert" and t["ak"] == "BoundsCheck":
+                idx = ex.expr(t["ops"][1], 10)
+        return {"form": "table", "handlers": tab, "index": idx, "args": [[_es(ex.expr(x, 6)) for x in ind[0]["args"]]]}
+    # match form
+    for b in sorted(ex.live_blocks()):
+        t = ex.term(b)
+        if t["k"] != "switch" or len(t["targets"]) < 15:
+            continue
+        tg = {v: x for v, x in t["targets"]}
+        hs, args = [], []
+        for i in range(16):
+            x = tg.get(i, t["otherwise"])
+            h = None
+            for _ in range(4):
+                tt = ex.term(x)
+                if tt["k"] == "goto":
+                    x = tt["t"]
+                    continue
+                if tt["k"] == "call" and _co(tt) in prog.fns:
+                    h = _co(tt)
+                    args.append([_es(ex.expr(a, 6)) for a in tt["args"]])
+                break
+            hs.append(h)
+        if all(hs):
+            return {"form": "match", "handlers": hs, "index": ex.expr(t["a"], 10), "args": args}
+    return None
